@@ -232,7 +232,15 @@ def check(ctx):
                 out |= node_classes(r.split("#")[0], seen + (meth,))
         ncls[meth] = out
         return out
+    # what each kind of the specifier record collects (spec["alignment"] etc. is filled by _add_declaration_specifier(spec, VALUE, KIND))
+    spec_kinds = {}
+    for meth, info in cur14.items():
+        for lab, fa in info["records"]:
+            if lab == "call:_add_declaration_specifier":
+                for kq in fa.get("p2", []):
+                    spec_kinds.setdefault(kq.strip("'\""), set()).update(fa.get("p1", []))
     n147 = 0
+    import re as _re14
     for meth, info in sorted(cur14.items()):
         for lab, fa in info["records"]:
             cls = lab.split(">")[-1]
@@ -242,6 +250,17 @@ def check(ctx):
                 for v in fa.get(f_, []):
                     base = v.split("#")[0]
                     holds = {v[4:].split("#")[0]} if v.startswith("new:") else (node_classes(base) if base.startswith("_parse_") and "." not in v and "[" not in v else set())
+                    mk = _re14.fullmatch(r"param:#\d+\[['\"]?(\w+)['\"]?\](\[:\])?", v)
+                    if mk and mk.group(1) in spec_kinds:
+                        # the whole list collected under that kind of the specifier record
+                        for src in spec_kinds[mk.group(1)]:
+                            b2 = src.split("#")[0]
+                            if src.startswith("new:"):
+                                holds.add(src[4:].split("#")[0])
+                            elif b2.startswith("_parse_") and "." not in src and "[" not in src:
+                                holds |= node_classes(b2)
+                                if node_classes(b2):
+                                    base = b2
                     n147 += 1
                     ctx.oblige("R-C14.7", f"{meth}: {cls}.{f_} <- {v}", not holds, nontrivial=True, sample={"rule": "R-C14.7", "method": meth, "attribute": f"{cls}.{f_}", "receives": v, "node classes": sorted(holds)} if holds or n147 % 29 == 0 else None)
                     if holds:
